@@ -75,6 +75,48 @@ fn item(spec: &str) -> String {
     }
 }
 
+fn build(spec: &str) -> Program {
+    let (mut constants, mut ops, mut globals, mut entry) = (Vec::new(), Vec::new(), Vec::new(), Entry::new());
+    for e in spec.split('/').filter(|e| !e.is_empty()) {
+        let (k, v) = e.split_at(2);
+        match k {
+            "c=" => constants.push(constant(v)),
+            "o=" => ops.push(instruction(v)),
+            "g=" => globals.push(ConstantPoolIndex::new(v.parse().unwrap())),
+            "e=" => entry = Entry::from(v.parse::<u16>().unwrap()),
+            _ => panic!("element {}", e),
+        }
+    }
+    Program { constant_pool: ConstantPool::from(constants), labels: Labels::new(), code: Code::from(ops), globals: Globals::from(globals), entry }
+}
+
+/// `listing serialize <spec>`: the bytes the real serializer writes, in hex.
+fn serialize(spec: &str) -> String {
+    use fmlverif::bytecode::serializable::Serializable;
+    let p = build(spec);
+    let mut sink: Vec<u8> = Vec::new();
+    match p.serialize(&mut sink) {
+        Ok(()) => sink.iter().map(|b| format!("{:02x}", b)).collect(),
+        Err(_) => "ERR".to_string(),
+    }
+}
+
+/// `listing roundtrip <spec>`: serialize, load again, compare constants / code / globals / entry and print the label table.
+fn roundtrip(spec: &str) -> String {
+    use fmlverif::bytecode::serializable::Serializable;
+    let p = build(spec);
+    let mut sink: Vec<u8> = Vec::new();
+    if p.serialize(&mut sink).is_err() { return "ERR".to_string(); }
+    let mut input: &[u8] = &sink[..];
+    let q = Program::from_bytes(&mut input);
+    let same = q.constant_pool == p.constant_pool && q.code == p.code && q.globals == p.globals && q.entry == p.entry && input.is_empty();
+    let mut names: Vec<String> = p.constant_pool.iter().filter_map(|c| match c { ProgramObject::String(s) => Some(s.clone()), _ => None }).collect();
+    names.sort();
+    names.dedup();
+    let labels: Vec<String> = names.iter().filter_map(|n| q.labels.get(n).ok().map(|a| format!("{}@{}", hex(n), a.value_u32()))).collect();
+    format!("{} labels={}", if same { "SAME" } else { "DIFFERENT" }, labels.join(","))
+}
+
 fn program(spec: &str) -> String {
     let (mut constants, mut ops, mut globals, mut entry) = (Vec::new(), Vec::new(), Vec::new(), Entry::new());
     for e in spec.split('/').filter(|e| !e.is_empty()) {
@@ -93,6 +135,11 @@ fn program(spec: &str) -> String {
 
 fn main() {
     let a: Vec<String> = std::env::args().skip(1).collect();
+    if a[0] == "serialize" || a[0] == "roundtrip" {
+        let r = std::panic::catch_unwind(|| if a[0] == "serialize" { serialize(&a[1]) } else { roundtrip(&a[1]) });
+        println!("{}", r.unwrap_or("PANIC".to_string()));
+        return;
+    }
     let render = |s: &str| if a[0] == "item" { item(s) } else { program(s) };
     let r = std::panic::catch_unwind(|| (render(&a[1]), render(&a[2])));
     match r {
